@@ -95,3 +95,26 @@ fn iter_mut_double_ended_and_hashset_additions() {
         assert_eq!(fa.len(), fb.len());
     }
 }
+
+#[test]
+fn vecdeque_idx_range_mut_matches_std() {
+    // VecDequeIdx (index-walking range_mut, used for qrecovery::journal::sent) against std
+    let mut r = Rng(0x0bad_cafe_1234_5678);
+    for _ in 0..5000 {
+        let n = (r.next() % 9) as usize;
+        let mut a: Std<u32> = Std::new();
+        let mut b: verif_model::VecDequeIdx<u32> = verif_model::VecDequeIdx::new();
+        for _ in 0..n { let v = (r.next() % 100) as u32; a.push_back(v); b.push_back(v); }
+        let s = (r.next() as usize) % (n + 1); let e = s + (r.next() as usize) % (n - s + 1);
+        assert_eq!(a.range_mut(s..e).len(), b.range_mut(s..e).len());
+        assert_eq!(a.range_mut(s..e).map(|x| *x).collect::<Vec<_>>(), b.range_mut(s..e).map(|x| *x).collect::<Vec<_>>());
+        for x in a.range_mut(s..e) { *x += 3; }
+        for x in b.range_mut(s..e) { *x += 3; }
+        assert_eq!(a.range(..).copied().collect::<Vec<_>>(), b.range(..).copied().collect::<Vec<_>>());
+        let f = (r.next() as usize) % (n + 1);
+        assert_eq!(a.drain(..f).collect::<Vec<_>>(), b.drain(..f).collect::<Vec<_>>());
+        assert_eq!(a.len(), b.len());
+        assert_eq!(a.iter().copied().collect::<Vec<_>>(), b.iter().copied().collect::<Vec<_>>());
+        assert_eq!(a.iter_mut().map(|x| *x).collect::<Vec<_>>(), b.iter_mut().map(|x| *x).collect::<Vec<_>>());
+    }
+}
